@@ -60,10 +60,13 @@ structure Fixes where
   intOvf : Bool     -- F10d: dd_source_name: `num > dd->len - dd->pos`; lambda number printed unsigned
   rustSpan : Bool   -- F10e: dd_source_name: a `$code$` must lie inside the name
   nullRet : Bool    -- F10g: demangle_simple falls back to the input when dd.new == NULL
+  discDigit : Bool  -- F10i: dd_discriminator: "_ <digit>" is exactly one digit
+  floatLit : Bool   -- F10k: dd_expr_primary: skip the lowercase hex digits of a floating-point literal
+  exprOps : Bool    -- F10j: dd_expression: `dv`, `cm` are binary, `co` is unary, `nw`/`na` are new-expressions
   deriving DecidableEq, Repr
 
-def Fixes.all : Fixes := ⟨true, true, true, true, true, true⟩
-def Fixes.none : Fixes := ⟨false, false, false, false, false, false⟩
+def Fixes.all : Fixes := ⟨true, true, true, true, true, true, true, true, true⟩
+def Fixes.none : Fixes := ⟨false, false, false, false, false, false, false, false, false⟩
 
 structure Env where
   s : Array UInt8
@@ -520,13 +523,32 @@ def templateParam : M Int := do
   if !(← debugConsume ch%'_') then return -1
   return 0
 
+/-- `isxdigit(c) && !isupper(c)` -/
+def isLowHex (c : UInt8) : Bool := isXDigit c && !isUpper c
+
+/-- F10k repair in dd_expr_primary: `while (isxdigit(dd_curr(dd)) && !isupper(dd_curr(dd)))
+    __dd_consume(dd, NULL);`.  `__dd_consume` does not advance at `pos == len`; the C loop would then
+    spin forever, which is what running out of the fuel `n + 1` means here (`Res.fuel` = hang). -/
+def hexSkip : Nat → M Unit
+  | 0 => fun _ _ => .fuel
+  | k + 1 => do
+    if isLowHex (← curr) then
+      let _ ← consume
+      hexSkip k
+    else pure ()
+
 /-- `dd_discriminator` -/
 def discriminator : M Int := do
   if (← eof) then return -1
   if !(← debugConsume ch%'_') then return -1
   let c ← curr
   if isDigit c then
-    return (if (← number) > 0 then 0 else -1)
+    if (← getFixes).discDigit then
+      -- F10i repaired: `__dd_consume(dd, NULL); return 0;`
+      let _ ← consume
+      return 0
+    else
+      return (if (← number) > 0 then 0 else -1)
   else if c == ch%'_' then
     let _ ← consume
     if (← number) < 0 then return -1
@@ -717,6 +739,8 @@ def bExprPrimary : M Int := do
     return 0
   let _ ← rec .type
   let _ ← number
+  if (← getFixes).floatLit then
+    hexSkip ((← getEnv).n + 1)
   if (← curr) == ch%'_' then
     let _ ← consume
     let _ ← number
@@ -802,6 +826,9 @@ def bExprB (c0 c1 : UInt8) : M Int := do
     let _ ← consumeN 2
     return (← rec .exprList)
   if c0 == ch%'n' && (c1 == ch%'w' || c1 == ch%'a') then
+    -- as coded this branch is dead ("nw"/"na" are in ops[]); F10j repaired: reachable, consumes the code
+    if (← getFixes).exprOps then
+      let _ ← consumeN 2
     if (← rec .exprList) < 0 then return -1
     if (← rec .type) < 0 then return -1
     if (← curr) == ch%'E' then
@@ -817,11 +844,22 @@ def bExprB (c0 c1 : UInt8) : M Int := do
     return (← rec .type)
   bExprC rec c0 c1
 
+/-- `unary_ops[]` of dd_expression; the F10j repair appends "co" -/
+def unaryOpsFx (fx : Fixes) : List (List UInt8) :=
+  if fx.exprOps then unaryOps ++ [bs%"co"] else unaryOps
+
+/-- codes of ops[] that the binary-operator loop of dd_expression skips -/
+def binSkip (fx : Fixes) (c0 c1 : UInt8) : Bool :=
+  if fx.exprOps then
+    (c0 == ch%'c' && (c1 == ch%'l' || c1 == ch%'v')) || (c0 == ch%'n' && (c1 == ch%'w' || c1 == ch%'a'))
+  else c0 == ch%'c' || c1 == ch%'v'
+
 /-- dd_expression after the optional "gs": `exp` = position at function entry,
     c0, c1 = the two current chars -/
 def bExprA (exp : Nat) (c0 c1 : UInt8) : M Int := do
   if c0 == ch%'L' then return (← rec .exprPrimary)
-  match (← findUnary exp unaryOps) with
+  let fx ← getFixes
+  match (← findUnary exp (unaryOpsFx fx)) with
   | some k =>
     let _ ← consumeN k
     return (← rec .expression)
@@ -832,7 +870,8 @@ def bExprA (exp : Nat) (c0 c1 : UInt8) : M Int := do
     if (← rec .expression) < 0 then return -1
     return (← rec .expression)
   -- binary operators: first entry of ops[] with that code, unless c0 == 'c' or c1 == 'v'
-  if (ops.any fun o => o.1 == c0 && o.2.1 == c1) && !(c0 == ch%'c' || c1 == ch%'v') then
+  -- (F10j repaired: unless it is "cl", "cv", "nw" or "na")
+  if (ops.any fun o => o.1 == c0 && o.2.1 == c1) && !binSkip fx c0 c1 then
     let _ ← consumeN 2
     if (← rec .expression) < 0 then return -1
     return (← rec .expression)
